@@ -8,12 +8,14 @@ package pubsub
 import (
 	"bytes"
 	"context"
+	"encoding/base64"
 	"fmt"
 	"math"
 	"sort"
 	"time"
 
 	pb "github.com/libp2p/go-libp2p-pubsub/pb"
+	"github.com/libp2p/go-libp2p/core/crypto"
 	"github.com/libp2p/go-libp2p/core/peer"
 )
 
@@ -28,6 +30,7 @@ func genC06(seed uint64, tier string) *Plan {
 	p.Knobs["ntopics"] = 2
 	p.Knobs["scoring"] = float64(b2i(r.chance(0.8)))
 	p.Knobs["flood_publish"] = float64(r.intn(2))
+	p.Knobs["ghost_rsa"] = float64(b2i(r.chance(0.3)))
 	p.Knobs["hb_ms"] = 1000
 	p.Knobs["publish_thr"] = float64(-r.rng(1, 5))
 	p.Knobs["gossip_thr"] = float64(-r.rng(0, 1))
@@ -98,7 +101,14 @@ func genC06(seed uint64, tier string) *Plan {
 		case x < 49:
 			add("node-pub-local", t, int64(r.rng(8, 60)))
 		case x < 51:
-			add("batch-local", t, int64(r.rng(8, 60)))
+			switch r.intn(3) {
+			case 0:
+				add("batch-local", t, int64(r.rng(8, 60)))
+			case 1:
+				add("batch2", int64(r.rng(8, 60)))
+			default:
+				add("node-pub-key", t, int64(r.rng(8, 60)))
+			}
 			if r.chance(0.4) {
 				// keep publishing to one topic for longer than the fanout TTL
 				for c := r.rng(3, 7); c > 0; c-- {
@@ -152,6 +162,11 @@ func runC06(s *sim) {
 	nTrig := 0
 	// an identity that is never connected (author of forwarded messages)
 	ghostKey := genKey(newPrng(p.Seed, "ghost"), 0)
+	if p.kb("ghost_rsa") {
+		// an author whose key is not embedded in its ID: its messages carry the key field
+		kb, _ := base64.StdEncoding.DecodeString(c03RSA[int(p.Seed%2)])
+		ghostKey, _ = crypto.UnmarshalPrivateKey(kb)
+	}
 	ghostID, _ := peer.IDFromPrivateKey(ghostKey)
 	ghostSeq := uint64(0)
 
@@ -463,6 +478,7 @@ func runC06(s *sim) {
 	}
 	var pre *snapshot
 	var pending *trigger
+	var morePending []*trigger
 	w.beforeItem = append(w.beforeItem, func(it Item) {
 		pre = w.snapshot()
 		pending = nil
@@ -550,6 +566,48 @@ func runC06(s *sim) {
 	w.localHook = func(topic string, data []byte, c *call) {
 		pending = &trigger{msg: &pb.Message{Data: data}, topic: topic, local: true, author: w.n.h.id}
 	}
+	w.extraOps["node-pub-key"] = func(it Item) {
+		// own publication under a per-publish identity: From is not the host ID, it is still the
+		// node's own message (flood publish applies)
+		topic := w.topicName(it.a(0))
+		data := w.mkData(int(it.a(1)))
+		pending = &trigger{msg: &pb.Message{Data: data}, topic: topic, local: true, author: ghostID}
+		s.probe("own_publication_with_per_publish_identity")
+		s.do("Publish(WithSecretKeyAndPeerId) "+topic, func() any {
+			t, err := w.n.topic(topic)
+			if err != nil {
+				return err
+			}
+			return t.Publish(context.Background(), data, WithSecretKeyAndPeerId(ghostKey, ghostID))
+		})
+	}
+	w.extraOps["batch2"] = func(it Item) {
+		// one batch with a message for each topic (recipient sets of different sizes)
+		if gs == nil {
+			return // only the gossipsub router publishes batches
+		}
+		var b MessageBatch
+		morePending = nil
+		for k, ti := range []int64{0, 1} {
+			topic := w.topicName(ti)
+			data := w.mkData(int(it.a(0)) + k)
+			tr := &trigger{msg: &pb.Message{Data: data}, topic: topic, local: true, author: w.n.h.id, mid: "-"}
+			if k == 0 {
+				pending = tr
+			} else {
+				morePending = append(morePending, tr)
+			}
+			s.do("AddToBatch "+topic, func() any {
+				t, err := w.n.topic(topic)
+				if err != nil {
+					return err
+				}
+				return t.AddToBatch(context.Background(), &b, data)
+			})
+		}
+		s.probe("batch_over_two_topics")
+		s.do("PublishBatch", func() any { return w.n.ps.PublishBatch(&b) })
+	}
 	w.ghost = func(topic string, data []byte) *pb.Message {
 		ghostSeq++
 		sq := make([]byte, 8)
@@ -603,10 +661,19 @@ func runC06(s *sim) {
 				return
 			}
 		}
+		if tr.mid == "-" {
+			tr.mid = "" // batch2: copies are recognised by their payload
+		}
 		judge(pre, post, tr, it.Op)
 		if tr.local && !tr.only {
 			checkFanoutKept(post, tr.topic, it.Op)
 		}
+		for _, x := range morePending {
+			t2 := *x
+			t2.mid = ""
+			judge(pre, post, t2, it.Op)
+		}
+		morePending = nil
 	})
 	w.atEnd = append(w.atEnd, func() {
 		s.nontrivial = nTrig > 0
